@@ -37,6 +37,13 @@ def configs(tier):
     c = A._b(crop="maize.2", win="w2", word="normal")
     c["dev"] = [[1, "Z"], [6, "Z"], [7, "L"], [11, "F"], [15, "T"], [370, "Z"]]
     C["extreme_weather_records"] = A.to_spec(c)
+    # a thickness list off the centimetre grid (2 m in 16 compartments of 0.125 m) on a profile deep enough for the crop: the model rounds
+    # the user's list - whatever it derives from it must not depend on whether the list was already rounded by an earlier run
+    for nm, dzl, zmax in (("thickness_off_cm_grid", [0.125] * 16, 1.0), ("thickness_off_cm_grid_mixed", [0.075] * 4 + [0.125] * 8 + [0.255] * 4, 1.2)):
+        s = A.to_spec(A._b(crop="maize.2", win="w2", word="showers", irr="smt"))
+        s["soil"]["dz"] = list(dzl)
+        s["crop"]["kw"] = dict(s["crop"].get("kw") or {}, Zmax=zmax, Zmin=0.3)
+        C[nm] = s
     # user lists NOT in chronological order (observations / schedule rows): an initialisation that normalises them may not write half of
     # the result back onto the user's object
     for nm, g in (("unsorted_table_v", {"method": "Variable", "series": [[30, 0.5], [0, 2.4], [9999, 0.5]]}),
